@@ -416,6 +416,8 @@ def run(ctx, build, verdict, ev):
             note(r[0], r[1], h, "array")
         # the same history with one-element batches handed over as 0-d arrays / numpy.float64 scalars
         if any(e[0] in ("call", "disabled") and len(e[1]) == 1 for e in h["events"]):
+            # (observations after an empty batch are outside the property: compare the kinds only up to there)
+            upto = 1 + next((i for i, e in enumerate(h["events"]) if e[0] == "call" and not e[1]), len(h["events"]))
             for kind in ("zerod", "float64"):
                 ok = run_real(h, kind)
                 stats["kinds"][kind] += 1
@@ -423,7 +425,7 @@ def run(ctx, build, verdict, ev):
                 if r2:
                     note(r2[0], r2[1], h, kind)
                 elif any(len(x["value"]) != len(y["value"]) or not all(vlib.same_float(p, q) for p, q in zip(x["value"], y["value"]))
-                         or not vlib.same_float(x["previous"], y["previous"]) or x["exc"] != y["exc"] for x, y in zip(obs, ok)):
+                         or not vlib.same_float(x["previous"], y["previous"]) or x["exc"] != y["exc"] for x, y in list(zip(obs, ok))[:upto]):
                     note("defuzzify:kind-dependence", f"{h['label']}: observations differ between a 1-d array and a {kind} result", h, kind)
         batch.append(coq_case(h, obs))
         batch_meta.append({"history": h, "observed": [{k: o[k] for k in ("value", "previous", "fuzzy", "exc")} for o in obs]})
